@@ -16,6 +16,8 @@ for name in sorted(res):
     for p, e in res[name].items():
         w = e.get("witness") or {}
         wit = w.get("operation") or w.get("probe_class") or w.get("what_no_longer_checks") or ""
+        if isinstance(wit, dict):
+            wit = f"{wit.get('kind')}: {wit.get('module', '')} {wit.get('msg', '')}"
         if w.get("implementation") is not None and w.get("operation"):
             wit += f" → {str(w.get('implementation'))[:40]} (spec {str(w.get('specification'))[:40]})"
         rows.append((name, p, "VIOLATION" if e["rc"] == 1 else ("OK (missed)" if e["rc"] == 0 else "INTERNAL-ERROR"),
